@@ -12,7 +12,7 @@ PROP = dict(
                        "Octo.C02.old_noRetractions_flag_refuted", "Octo.C02.lookupJoin_sql", "Octo.C02.planner_is_sql",
                        "Octo.C02.optimizer_preserves", "Octo.C02.pushIntoJoinKey_sound", "Octo.C02.execution_is_relational",
                        "Octo.C02.sink_consolidates", "Octo.C02.schedule_independent", "Octo.C02.optimizer_irrelevant",
-                       "Octo.C02.eq_with_null_is_not_true", "Octo.C02.engine_join_has_no_null_keys", "Octo.C02.left_join_shape",
+                       "Octo.C02.eq_with_null_is_not_true", "Octo.C02.engine_join_has_no_null_keys", "Octo.C02.innerJoin_sql", "Octo.C02.left_join_shape", "Octo.C02.right_join_shape",
                        "Octo.C02.full_join_shape", "Octo.C02.eager_sink_before_fix_refuted",
                        "Octo.C02.streamJoin_is_sql_join", "Octo.C02.outerJoin_is_sql_outer_join"],
     needs_binary=True,
